@@ -1,19 +1,19 @@
 package main
 
-// The refuse-list closures installed by gemmill.prepareP2P are unexported and
-// not (yet) part of gemmill/verif_shim.go; they are reached by symbol name so
-// that the monitor runs the REAL filter, not a restatement of it.
+// The refuse-list closures installed by gemmill.prepareP2P are unexported; the
+// verif shim of package gemmill exports them, so that the monitor runs the REAL
+// filter, not a restatement of it.
 
 import (
-	_ "unsafe"
-
-	_ "github.com/dappledger/AnnChain/gemmill"
+	"github.com/dappledger/AnnChain/gemmill"
 	crypto "github.com/dappledger/AnnChain/gemmill/go-crypto"
 	"github.com/dappledger/AnnChain/gemmill/refuse_list"
 )
 
-//go:linkname refuseListFilter github.com/dappledger/AnnChain/gemmill.refuseListFilter
-func refuseListFilter(refuseList *refuse_list.RefuseList) func(crypto.PubKey) error
+func refuseListFilter(refuseList *refuse_list.RefuseList) func(crypto.PubKey) error {
+	return gemmill.VerifRefuseListFilter(refuseList)
+}
 
-//go:linkname addToRefuselist github.com/dappledger/AnnChain/gemmill.addToRefuselist
-func addToRefuselist(refuseList *refuse_list.RefuseList) func([]byte) error
+func addToRefuselist(refuseList *refuse_list.RefuseList) func([]byte) error {
+	return gemmill.VerifAddToRefuselist(refuseList)
+}
